@@ -40,6 +40,11 @@ func genCase() *rapid.Generator[tcase] {
 		c := tcase{}
 		f := fg.Flow{Name: "uflow", URL: "h.com/g"}
 		n := rapid.IntRange(1, 5).Draw(t, "nreq")
+		big := rapid.IntRange(0, 4).Draw(t, "big") == 0
+		if big {
+			// a larger flow: 6-10 request processors with frequent fan-out, i.e. well over a dozen connections
+			n = rapid.IntRange(6, 10).Draw(t, "nreq-big")
+		}
 		kinds := make([]string, n)
 		for i := 0; i < n; i++ {
 			k := rapid.SampledFrom([]string{"T", "F", "F", "G"}).Draw(t, "kind")
@@ -62,7 +67,7 @@ func genCase() *rapid.Generator[tcase] {
 			}
 			for _, cond := range fg.Outputs(kinds[i]) {
 				ntargets := 1
-				if i+2 < n && rapid.IntRange(0, 5).Draw(t, "fan") == 0 {
+				if i+2 < n && (rapid.IntRange(0, 5).Draw(t, "fan") == 0 || (big && rapid.Bool().Draw(t, "fan-big"))) {
 					ntargets = 2
 				}
 				if kinds[i] == "F" && rapid.IntRange(0, 6).Draw(t, "noedge") == 0 && cond == "miss" {
@@ -165,6 +170,12 @@ func genCase() *rapid.Generator[tcase] {
 			}
 		}
 		f.Procs = procs
+		// the connections may be listed in any order (the entry connection need not come first); fan-out siblings
+		// run in the order in which they are listed, which the reference interpreter follows
+		if rapid.Bool().Draw(t, "shuffle") {
+			f.Req = rapid.Permutation(f.Req).Draw(t, "req-order")
+			f.Resp = rapid.Permutation(f.Resp).Draw(t, "resp-order")
+		}
 		c.Flow = f
 		nq := rapid.IntRange(0, 2).Draw(t, "nquotas")
 		for i := 0; i < nq; i++ {
